@@ -313,6 +313,31 @@ impl<'a> TypeFn for Sweep<'a> {
         let preds: Vec<&str> = self.table["preds"].as_array().ok_or("preds")?.iter().filter_map(|x| x.as_str()).collect();
         let mut cmps: Vec<&str> = self.table["cmps"].as_array().ok_or("cmps")?.iter().filter_map(|x| x.as_str()).collect();
         cmps.extend(["abs_diff_eq", "relative_eq", "ulps_eq"]);
+        // the defaults of the approx traits are the defaults of the float type, as constants (no derivative part)
+        {
+            let regs = vec![mk(1.5, 0, &mut rng)?];
+            let (we, wr, wu) = if f32mode {
+                (<f32 as approx::AbsDiffEq>::default_epsilon() as f64, <f32 as approx::RelativeEq>::default_max_relative() as f64, <f32 as approx::UlpsEq>::default_max_ulps() as f64)
+            } else {
+                (<f64 as approx::AbsDiffEq>::default_epsilon(), <f64 as approx::RelativeEq>::default_max_relative(), <f64 as approx::UlpsEq>::default_max_ulps() as f64)
+            };
+            for (op, want) in [("default_epsilon", we), ("default_max_relative", wr), ("default_max_ulps", wu)] {
+                let ev = Ev { op: op.to_string(), form: String::new(), a: 1, b: 1, c: 1, d: 1, s: 0.0, n: 0, rs: vec![], v: Value::Null };
+                let ok = match T::apply(&regs, &ev) {
+                    Ok(Out::Val(v)) => {
+                        let mut m = BTreeMap::new();
+                        crate::float::flatten_json(&v.to_json(), "", &mut m);
+                        out.cmps += 1;
+                        m.iter().all(|(k, x)| if k.trim_end_matches(".re") == "" || k.chars().filter(|c| *c == '.').count() == k.matches(".re").count() { *x == want } else { *x == 0.0 })
+                    }
+                    Ok(Out::Re(r)) => { out.cmps += 1; r == want }
+                    _ => true,
+                };
+                if !ok {
+                    note(&mut out, json!({"what": "approx default is not the float type's default as a constant", "key": T::KEY, "op": op, "expected": want}));
+                }
+            }
+        }
         let vals: Vec<f64> = SPECIAL.iter().map(|v| rnd(*v)).chain([rnd(1.0 + 2f64.powi(-20)), rnd(0.75)]).collect();
         for &x in &vals {
             for &p in &preds {
